@@ -123,6 +123,8 @@ def mutate(rng, doc):
         imp = [i for i, b in enumerate(d.blocks) if b["k"] == "raw" and "import" in b["text"]]
         if imp:
             d.blocks.pop(imp[0])
+        elif d.path.endswith("hub.py"):
+            d.blocks.insert(0, {"k": "raw", "text": "from .fx import *"})
         elif d.path.endswith("conftest.py") and "/" in d.path:
             d.blocks.insert(0, {"k": "raw", "text": rng.choice(["from .fx import *", "from .fx import qux", 'pytest_plugins = ["fx"]'])})
     elif kind == "change_params" and fx:
